@@ -2,8 +2,10 @@ package harness
 
 import (
 	"fmt"
+	"sort"
 	"strings"
 	"testing"
+	"time"
 )
 
 // LongCase: a long member of a valid input family, optionally with one token removed.
@@ -66,26 +68,32 @@ func TestC05_Long(t *testing.T) {
 	for extra := 60; extra <= max && extra <= 300; extra += 9 { // dense around the usual small thresholds
 		sizes = append(sizes, extra)
 	}
-	type job struct{ c LongCase }
-	var jobs []LongCase
-	for _, f := range c05LongFamilies {
-		for _, n := range sizes {
+	// one goroutine per family, sizes ascending; a family whose cases become slow is not escalated
+	// further (its cost is C14's subject, and a pathological tree must not stall this check)
+	parallelFor(len(c05LongFamilies), func(fi int) {
+		f := c05LongFamilies[fi]
+		sorted := append([]int{}, sizes...)
+		sort.Ints(sorted)
+		for _, n := range sorted {
 			if (f == "or-later-rewrites" || f == "with-exceptions") && n > 4000 {
 				continue // quadratic text rewriting: kept small
 			}
-			jobs = append(jobs, LongCase{f, n, -1}, LongCase{f, n, 0}, LongCase{f, n, n}, LongCase{f, n, 2*n + 1})
-		}
-	}
-	parallelFor(len(jobs), func(i int) {
-		c := jobs[i]
-		out := checkC05Long(c)
-		cls := "intact"
-		if c.Drop >= 0 {
-			cls = "one-word-removed"
-		}
-		rec.Case(c.N >= 50, fmt.Sprintf("%s/%d/%d", c.Family, c.N, c.Drop), map[string]any{"family": c.Family, "n": c.N, "removed_word": c.Drop}, cls, "family-"+c.Family)
-		if !out.OK {
-			rec.Violate("c05-long", out.Key, out.Msg, c)
+			t0 := time.Now()
+			for _, c := range []LongCase{{f, n, -1}, {f, n, 0}, {f, n, n}, {f, n, 2*n + 1}} {
+				out := checkC05Long(c)
+				cls := "intact"
+				if c.Drop >= 0 {
+					cls = "one-word-removed"
+				}
+				rec.Case(c.N >= 50, fmt.Sprintf("%s/%d/%d", c.Family, c.N, c.Drop), map[string]any{"family": c.Family, "n": c.N, "removed_word": c.Drop}, cls, "family-"+c.Family)
+				if !out.OK {
+					rec.Violate("c05-long", out.Key, out.Msg, c)
+				}
+			}
+			if time.Since(t0) > 20*time.Second {
+				rec.Note("family %s not escalated beyond n=%d: the four cases took %v", f, n, time.Since(t0).Round(time.Second))
+				break
+			}
 		}
 	})
 }
